@@ -1,7 +1,8 @@
 (* Extraction for the C11 correspondence driver. ExtrOcamlBasic only; Z/N stay datatypes. *)
 From Coq Require Import Extraction ExtrOcamlBasic ZArith NArith.
-From GoSecs Require Import Hsms.Backoff.
+From GoSecs Require Import Hsms.Backoff Hsms.Lifecycle.
 Extraction Language OCaml.
 Extraction "c11_model.ml"
   Z.add Z.mul Z.opp Z.sub Z.div_eucl Z.of_N Z.to_N N.add N.mul N.div_eucl Z.eqb Z.ltb Z.leb
-  Backoff_next_delay_bits Backoff_next_delay_old_bits Backoff_f64_of_bits Backoff_sleeps_from Backoff_mult_ok Backoff_next_delay.
+  Backoff_next_delay_bits Backoff_next_delay_old_bits Backoff_f64_of_bits Backoff_sleeps_from Backoff_mult_ok Backoff_next_delay
+  ok_C11 ok_C10 lc_mon_run.
